@@ -20,6 +20,7 @@ type served struct {
 	panicked string
 	deadlock bool
 	stacks   string
+	datas    []string // WebSocket: payloads of the data messages
 }
 
 func serve(c *Case, forceSync bool) *served {
